@@ -303,7 +303,7 @@ func addAuthnRedirectCase(c *Ctx, g *Group, o spOpts, epClass string, m cls, pro
 		urlText = u.String()
 		okOut = true
 		xmlb := docBytes(req.Element())
-		enc = deflate64(xmlb)
+		enc = encodedMessage(urlText, "SAMLRequest", xmlb)
 		obs["url"] = urlText
 		// independent view through net/url
 		pu, perr := url.Parse(urlText)
@@ -324,7 +324,7 @@ func addAuthnRedirectCase(c *Ctx, g *Group, o spOpts, epClass string, m cls, pro
 				good = good && len(q["SAMLRequest"]) == 1
 				if good {
 					x, e := inflate64(q.Get("SAMLRequest"))
-					good = e == nil && string(x) == string(xmlb)
+					good = e == nil && sameXML(x, xmlb)
 				}
 				if m.s == "" {
 					good = good && len(q["RelayState"]) == 0
@@ -485,7 +485,7 @@ func c12LogoutRedirect(c *Ctx) {
 				} else {
 					urlText = u.String()
 					xmlb := docBytes(el)
-					enc = deflate64(xmlb)
+					enc = encodedMessage(urlText, param, xmlb)
 					obs["url"] = urlText
 					q, qerr := url.ParseQuery(mustURL(urlText).RawQuery)
 					own, _ := url.ParseQuery(mustURL(dest).RawQuery)
@@ -496,7 +496,7 @@ func c12LogoutRedirect(c *Ctx) {
 						good := qerr == nil && len(q[param]) == 1
 						if good {
 							x, e := inflate64(q.Get(param))
-							good = e == nil && string(x) == string(xmlb)
+							good = e == nil && sameXML(x, xmlb)
 						}
 						if m.s == "" {
 							good = good && len(q["RelayState"]) == 0
@@ -942,7 +942,7 @@ func c12Post(c *Ctx) {
 				msgSeen, ok1 = formValueOf(html, param)
 				relaySeen, ok2 = formValueOf(html, "RelayState")
 				dec, e := base64.StdEncoding.DecodeString(msgSeen)
-				good = ok1 && ok2 && e == nil && string(dec) == string(xmlb) && relaySeen == m.s
+				good = ok1 && ok2 && e == nil && sameXML(dec, xmlb) && relaySeen == m.s
 				if good && kind == 0 {
 					body := url.Values{"SAMLRequest": {msgSeen}, "RelayState": {relaySeen}}.Encode()
 					verdict, rs := idpValidate(sp, o.ssoPost, "POST", o.ssoPost, body)
